@@ -403,3 +403,57 @@ func first(u []string) string {
 	}
 	return u[0]
 }
+
+// Many sources at once: every datagram is handled in its own goroutine, so K sources
+// sending together exercise K concurrent handlers of the same service instance.
+func TestManySources(t *testing.T) {
+	r := vlib.Open(prop)
+	defer dropChild()
+	if vlib.Replaying() {
+		return // failures of this test are reported (and replayed) as TestScenarios cases
+	}
+	r.Rule("many-sources: 24..64 sources each sending 1..3 grammar datagrams (or short TCP dialogues) to the same service at the same time, round-robin interleaved; same oracle")
+	r.Rapid(t, "TestScenarios", r.Pick(25, 400), func(rt *rapid.T) {
+		service := rapid.SampledFrom([]string{"tftp", "tftp", "memcached", "snmp", "counterstrike", "dns", "echo", "ntp", "redis", "ftp", "ldap", "smtp"}).Draw(rt, "service")
+		k := rapid.IntRange(24, 64).Draw(rt, "sources")
+		sc := scenario{Kind: "many-sources"}
+		maxSteps := 0
+		for i := 0; i < k; i++ {
+			c, _ := genConn(rt, service, "grammar")
+			if c.UDP {
+				c.Seg = "units"
+				if len(c.Units) > 3 {
+					c.Units = c.Units[:3]
+				}
+			}
+			sc.Conns = append(sc.Conns, c)
+			if n := len(c.wire().Steps); n > maxSteps {
+				maxSteps = n
+			}
+		}
+		for s := 0; s < maxSteps; s++ {
+			for i := range sc.Conns {
+				if s < len(sc.Conns[i].wire().Steps) {
+					sc.Order = append(sc.Order, i)
+				}
+			}
+		}
+		o, err := runScenario(sc)
+		fp := ""
+		if o.nontrivial {
+			fp = vlib.JSON(sc)
+		}
+		r.Case(fmt.Sprintf("many-sources/%s", service), fp, func() interface{} {
+			return map[string]interface{}{"service": service, "sources": k, "steps": len(sc.Order)}
+		})
+		if err != nil {
+			if strings.HasPrefix(err.Error(), "infra:") {
+				rt.Fatalf("%v", err)
+			}
+			if cu, ok := err.(*culprit); ok {
+				r.Fail(rt, "TestScenarios", cu.sc, "%v", cu.err)
+			}
+			r.Fail(rt, "TestScenarios", sc, "%v", err)
+		}
+	})
+}
